@@ -26,6 +26,20 @@ type Ev struct {
 	Arm   int      // select arm index (select-* kinds)
 	Guard []string // normalised guard atoms dominating the event
 	Held  []string // abstract locks held (local ∪ entry)
+	// Site is set for an event that was found in a helper function called (statically,
+	// same package) from the anchor function: the call instruction in the anchor function
+	// through which it is reached.  Its descriptions are in the anchor's terms (arguments
+	// substituted), its guards and locks include those of the call site.
+	Site ssa.Instruction
+}
+
+// At is the instruction that locates the event inside the anchor function: the event's own
+// instruction, or the call site of the helper it was found in.
+func (e *Ev) At() ssa.Instruction {
+	if e.Site != nil {
+		return e.Site
+	}
+	return e.In
 }
 
 func (e *Ev) String() string {
@@ -243,6 +257,16 @@ type F struct {
 	fn   *ssa.Function
 	Name string
 	evs  []*Ev
+	deep []*Ev // helper-function events (lazy)
+	gotD bool
+}
+
+func (f *F) deepEvs() []*Ev {
+	if !f.gotD && f.fn != nil {
+		f.gotD = true
+		f.deep = f.q.p.EventsDeep(f.fn)
+	}
+	return f.deep
 }
 
 // Fn resolves an anchor; a missing anchor is a violation (ANCHOR-MISSING, fail closed).
@@ -265,6 +289,14 @@ func (f *F) Closure(rule string, i int) *F {
 		return &F{q: f.q, Name: f.Name + "$?"}
 	}
 	if i >= len(f.fn.AnonFuncs) {
+		// `once.Do(x.method)` instead of `once.Do(func() {…})`
+		if i == 0 {
+			for m, parent := range f.q.p.onceBodies() {
+				if parent == f.fn {
+					return &F{q: f.q, fn: m, Name: f.q.p.FuncName(m), evs: f.q.p.Events(m)}
+				}
+			}
+		}
 		f.q.r.Bad(rule, "anchor:"+f.Name+fmt.Sprintf("$%d", i+1), "-", "ANCHOR-MISSING: closure not found")
 		return &F{q: f.q, Name: f.Name + "$?"}
 	}
@@ -296,6 +328,32 @@ func (f *F) Ev(kind, what string) Sel {
 			continue
 		}
 		out = append(out, e)
+	}
+	// plus the single-use private helpers it calls (a helper with exactly one call site is
+	// part of its caller; its events are rendered in f's terms) ...
+	for _, e := range f.deepEvs() {
+		if e.Kind == kind && matchStr(e.What, what) && f.q.p.singleUse(e.In.Parent()) {
+			out = append(out, e)
+		}
+	}
+	if len(out) == 0 {
+		// ... and, when the construct is nowhere in those, any private helper
+		for _, e := range f.deepEvs() {
+			if e.Kind == kind && matchStr(e.What, what) {
+				out = append(out, e)
+			}
+		}
+	}
+	return out
+}
+
+// EvOwn: events of the function itself only.
+func (f *F) EvOwn(kind, what string) Sel {
+	var out Sel
+	for _, e := range f.evs {
+		if e.Kind == kind && matchStr(e.What, what) {
+			out = append(out, e)
+		}
 	}
 	return out
 }
@@ -398,7 +456,7 @@ func (s Sel) DominatedBy(a Sel) bool {
 	for _, e := range s {
 		ok := false
 		for _, d := range a {
-			if d.Fn == e.Fn && d.In != e.In && InstrDominates(d.In, e.In) {
+			if evDominates(d, e) {
 				ok = true
 				break
 			}
@@ -534,7 +592,21 @@ func (q *Q) OnlyIn(rule, key string, got map[string][]string, allowed []string, 
 	var extra []string
 	for k := range got {
 		if !al[k] {
-			extra = append(extra, k+" ("+strings.Join(got[k], ",")+")")
+			// a private helper counts as (all of) its callers
+			ok := true
+			for _, a := range q.p.attributedTo(k) {
+				if !al[a] {
+					ok = false
+				}
+			}
+			if !ok {
+				extra = append(extra, k+" ("+strings.Join(got[k], ",")+")")
+				continue
+			}
+			for _, a := range q.p.attributedTo(k) {
+				got[a] = append(got[a], got[k]...)
+			}
+			delete(got, k)
 		}
 	}
 	sort.Strings(extra)
@@ -586,6 +658,23 @@ func (q *Q) StoreClasses(rule, key, fieldKey string, allowed map[string]string) 
 			}
 		}
 		fn := q.p.FuncName(a.Fn)
+		if _, listed := allowed[fn]; !listed {
+			// a private helper counts as its callers (all of them must allow the class)
+			attr := q.p.attributedTo(fn)
+			okAll := len(attr) > 0
+			for _, an := range attr {
+				al2, ok2 := allowed[an]
+				if !ok2 || !strings.Contains(","+strings.ReplaceAll(al2, "?", "")+",", ","+cls+",") {
+					okAll = false
+				}
+			}
+			if okAll {
+				for _, an := range attr {
+					seen[an+"/"+cls] = true
+				}
+				continue
+			}
+		}
 		seen[fn+"/"+cls] = true
 		al, ok := allowed[fn]
 		if !ok || !strings.Contains(","+strings.ReplaceAll(al, "?", "")+",", ","+cls+",") {
@@ -748,4 +837,203 @@ func (q *Q) NilReturnsPass(rule, key string, f *F, via Sel, okmsg, badmsg string
 	}
 	walk(f.fn.Blocks[0])
 	q.r.Check(bad == "", rule, key, via.Pos(q.p), okmsg, badmsg+" (the return at "+bad+" is reachable without it)")
+}
+
+// EventsDeep: the events of fn followed by those of the helper functions it calls — static
+// calls to functions of the same package, two levels deep, no recursion — rendered in fn's
+// own terms.  Anchored rules fall back to this view when the construct they require is not
+// in the anchor function itself, so that extracting part of a function into a private
+// helper (or passing a method value where a closure stood) does not change the verdict.
+func (p *Prog) EventsDeep(fn *ssa.Function) []*Ev {
+	var out []*Ev
+	var rec func(f *ssa.Function, site ssa.Instruction, pre []string, held []string, depth int, stack []*ssa.Function)
+	rec = func(f *ssa.Function, site ssa.Instruction, pre []string, held []string, depth int, stack []*ssa.Function) {
+		evs := p.Events(f)
+		for _, e := range evs {
+			if site != nil {
+				if e.Kind == "return" {
+					continue
+				}
+				e.Site = site
+				e.Guard = append(append([]string{}, pre...), e.Guard...)
+				e.Held = unionStr(held, e.Held)
+				out = append(out, e)
+			}
+			if depth >= 2 {
+				continue
+			}
+			c := CallOf(e.In)
+			if c == nil || (e.Kind != "call" && e.Kind != "defer") {
+				continue
+			}
+			sc := c.StaticCallee()
+			if sc == nil || sc.Blocks == nil || !p.moduleFunc(sc) || sc.Pkg != f.Pkg {
+				continue
+			}
+			onStack := sc == fn
+			for _, s := range stack {
+				if s == sc {
+					onStack = true
+				}
+			}
+			if onStack {
+				continue
+			}
+			// actual arguments, described in the current (already substituted) context
+			saved := descSubst
+			ns := map[*ssa.Parameter]string{}
+			for k, v := range saved {
+				ns[k] = v
+			}
+			for i, par := range sc.Params {
+				if i < len(c.Args) {
+					ns[par] = Desc(c.Args[i])
+				}
+			}
+			descSubst = ns
+			s2 := site
+			if s2 == nil {
+				s2 = e.In
+			}
+			rec(sc, s2, e.Guard, e.Held, depth+1, append(stack, f))
+			descSubst = saved
+		}
+	}
+	rec(fn, nil, nil, nil, 0, nil)
+	return out
+}
+
+func unionStr(a, b []string) []string {
+	seen := map[string]bool{}
+	var out []string
+	for _, x := range append(append([]string{}, a...), b...) {
+		if !seen[x] {
+			seen[x] = true
+			out = append(out, x)
+		}
+	}
+	sort.Strings(out)
+	return out
+}
+
+// evDominates: d executes before e on every path to e.  Two events found in the same helper
+// through the same call are compared inside the helper; otherwise their locations in the
+// anchor function (own instruction or call site) are compared.
+func evDominates(d, e *Ev) bool {
+	if d.In == e.In {
+		return false
+	}
+	if d.Site != nil && e.Site != nil && d.Site == e.Site && d.In.Parent() == e.In.Parent() {
+		return InstrDominates(d.In, e.In)
+	}
+	a, b := d.At(), e.At()
+	if a.Parent() != b.Parent() || a == b {
+		return false
+	}
+	return InstrDominates(a, b)
+}
+
+// attributedTo: a private helper function is judged as part of the functions that call it.
+// Returns the names of the functions the effects of `name` are attributed to: name itself
+// when it is exported, has no in-module caller, or is reached through a go statement or a
+// function value; otherwise the (transitive, depth <= 3) static callers.  Who-may-call and
+// who-may-write tables accept a site in a helper when everything it is attributed to is in
+// the table — so extracting a block of an allowed function into a helper changes nothing.
+func (p *Prog) attributedTo(name string) []string {
+	if p.byName == nil {
+		p.byName = map[string]*ssa.Function{}
+		for _, fn := range p.Funcs {
+			p.byName[p.FuncName(fn)] = fn
+		}
+	}
+	fn := p.byName[name]
+	if fn == nil {
+		return []string{name}
+	}
+	out := map[string]bool{}
+	var rec func(f *ssa.Function, d int)
+	rec = func(f *ssa.Function, d int) {
+		nm := p.FuncName(f)
+		n := p.CG().Nodes[f]
+		exported := f.Parent() == nil && !lowerName(f.Name())
+		if n == nil || exported || d >= 3 || f.Parent() != nil {
+			out[nm] = true
+			return
+		}
+		callers := 0
+		for _, e := range n.In {
+			if !p.moduleFunc(e.Caller.Func) || e.Site == nil {
+				continue
+			}
+			if _, isGo := e.Site.(*ssa.Go); isGo {
+				out[nm] = true
+				return
+			}
+			if e.Site.Common().StaticCallee() != f {
+				out[nm] = true // dynamic edge: cannot attribute
+				return
+			}
+			callers++
+		}
+		if callers == 0 {
+			out[nm] = true
+			return
+		}
+		for _, e := range n.In {
+			if p.moduleFunc(e.Caller.Func) && e.Site != nil {
+				rec(e.Caller.Func, d+1)
+			}
+		}
+	}
+	rec(fn, 0)
+	var names []string
+	for k := range out {
+		names = append(names, k)
+	}
+	sort.Strings(names)
+	return names
+}
+
+// singleUse: fn (an unexported, non-closure function of the module) has exactly one static
+// call site in the module and is not used as a value.
+func (p *Prog) singleUse(fn *ssa.Function) bool {
+	if p.single == nil {
+		p.single = map[*ssa.Function]bool{}
+		cnt := map[*ssa.Function]int{}
+		dyn := map[*ssa.Function]bool{}
+		for f := range p.All {
+			if !p.moduleFunc(f) || f.Blocks == nil {
+				continue
+			}
+			EachInstr(f, func(in ssa.Instruction) {
+				if c := CallOf(in); c != nil {
+					if sc := c.StaticCallee(); sc != nil {
+						if _, isGo := in.(*ssa.Go); isGo {
+							dyn[sc] = true
+						}
+						cnt[sc]++
+					}
+				}
+				// used as a value (operand that is the function itself, outside call position)
+				for _, op := range in.Operands(nil) {
+					if op == nil || *op == nil {
+						continue
+					}
+					if g, ok := (*op).(*ssa.Function); ok {
+						if c := CallOf(in); c == nil || c.Value != g {
+							dyn[g] = true
+						}
+					}
+				}
+			})
+		}
+		for f, n := range cnt {
+			if n == 1 && !dyn[f] && f.Parent() == nil && lowerName(f.Name()) && p.moduleFunc(f) {
+				if node := p.CG().Nodes[f]; node != nil && len(node.In) == 1 {
+					p.single[f] = true
+				}
+			}
+		}
+	}
+	return p.single[fn]
 }
